@@ -358,6 +358,7 @@ func init() {
 					}
 				}
 			}
+			rs = append(rs, HRun{Pkg: "./jrpc2", Fn: "ZZ_C07_Do"})
 			rs = append(rs, HRun{Pkg: "./jrpc2", Fn: "ZZ_C07_HeadHash", Params: []int{0}}, HRun{Pkg: "./jrpc2", Fn: "ZZ_C07_HeadHash", Params: []int{1}})
 			return rs
 		},
@@ -367,13 +368,13 @@ func init() {
 			"structural corruptions (null result, batch one shorter / one longer, 0 or 2 items instead of 1, block without transactions) are case-split under a budget of 1 (quick) / 2 (thorough) per request",
 			"a log entry always carries its own object (logIndex/address/topics/data not all absent)",
 			"elements repeating the identity of another element of the same answer (same block+logIndex, same block+tx) are excused from the attachment check: de-duplication is accepted behaviour",
-			"HTTP status / undecodable body handling inside do() (net/http, goccy/go-json) is outside: C07-d of the design was dropped, the three checks sit behind library calls that cannot be encoded",
+			"HTTP status / undecodable body (ZZ_C07_Do): the REAL (*Client).do is executed with the library calls inside it cut (io.Pipe, goccy Encoder/Decoder, http.NewRequest, http.Client.Do, io.ReadAll; harness/jrpc2/c07do.go): the transport fails or answers with any status 100..599 (solver integer) and a body that decodes or does not (solver Boolean); do() must return an error unless transport ok, status 2xx and body decodes, and count the request only then. Natively the same harness installs a RoundTripper and runs the real net/http and goccy code",
 		},
 		Bounds: map[string]string{
 			"quick":    "12 data plans ({none,headers,blocks} x {none,logs,receipts,traces}); limit 1..3 for block-only plans, 1..2 otherwise; start a free value < 2^62; with and without error members / transport errors",
 			"thorough": "limit 1..2 with corruption budget 2 and limit 3 with budget 1 for every plan; limit 3..4 with budget 2 for the block-only plans (limit 3 budget 2 / limit 4 for plans with per-transaction items ran past 10 minutes per instance and are not claimed)",
 		},
-		Outside: []string{"net/http and goccy/go-json themselves (truncated bodies, gzip, non-2xx)", "JSON-RPC id matching (the client never checks ids)"},
+		Outside: []string{"net/http and goccy/go-json themselves (which truncated bodies fail to decode, gzip, redirects followed by net/http)", "JSON-RPC id matching (the client never checks ids)"},
 	})
 }
 
@@ -705,11 +706,21 @@ func init() {
 				rs = append(rs, HRun{Pkg: "./shovel", Fn: "ZZ_C20_Restart", Params: []int{1, 1, 45}, MaxPaths: 400000},
 					HRun{Pkg: "./shovel", Fn: "ZZ_C20_Restart", Params: []int{0, 2, 60}, MaxPaths: 400000})
 			}
+			// restart sequences: idle manager, failed restart then a good one, two restarts in a row
+			rs = append(rs, HRun{Pkg: "./shovel", Fn: "ZZ_C20_Sequence", Params: []int{0, 0, 60, 2}, MaxPaths: 400000},
+				HRun{Pkg: "./shovel", Fn: "ZZ_C20_Sequence", Params: []int{1, 0, 60, 1}, MaxPaths: 400000},
+				HRun{Pkg: "./shovel", Fn: "ZZ_C20_Sequence", Params: []int{2, 0, 60, 1}, MaxPaths: 400000})
+			if tier == "thorough" {
+				rs = append(rs, HRun{Pkg: "./shovel", Fn: "ZZ_C20_Sequence", Params: []int{0, 0, 80, 4}, MaxPaths: 400000},
+					HRun{Pkg: "./shovel", Fn: "ZZ_C20_Sequence", Params: []int{1, 0, 70, 2}, MaxPaths: 400000},
+					HRun{Pkg: "./shovel", Fn: "ZZ_C20_Sequence", Params: []int{2, 0, 70, 2}, MaxPaths: 400000})
+			}
 			return rs
 		},
 		Assumptions: []string{
 			"configuration half (ZZ_C20_Load): task list = enabled integrations x referenced sources, file wins a name clash, unknown source is a startup error, each task carries its source's settings and the reference's start/stop, context names equal the task's names",
 			"schedule half (ZZ_C20_Restart): the real Manager.Run/Restart/runTask with real tasks (loadTasks, Converge against the Postgres model and the honest node) run under the engine's scheduler: goroutines become engine threads, every synchronisation operation (mutex, channel send/receive/close, select, WaitGroup, sleep, goroutine start/end) is a scheduling point, the choice of the next runnable thread is an enumerated decision bounded by a preemption budget (0 quick, 1 thorough) and a bound on scheduling points per path (paths reaching it are cut, not counted as held); one restart is requested while the first generation runs; after Restart returns no task of the previous generation may issue a source call, the manager holds new tasks, no deadlock, no goroutine panic. Overlapping restarts and a restart during the first loadTasks are not explored; the background head pollers are cut",
+			"restart sequences (ZZ_C20_Sequence), same scheduler: (0) the first generation has no enabled integration and its Run has returned, an integration is stored and a restart requested; (1) a stored integration references an unknown source, Restart reports the error, the source is added and a second restart requested; (2) two restarts in a row while tasks run. The last restart must not panic, must load one task per pair, and whenever the harness looks afterwards (1-2 times, after sleeping) the new generation's Run must still hold the manager's lock (its tasks have no stop, so no runner may exit)",
 			"the two database readers config.Integrations / config.Sources are cut (engine redirect, native rename) and return the symbolic lists; pgp.Exec of NewTask, jrpc2.MustURL and gzhttp.Transport are cut",
 			"integration names over {a,b}, enabled flags, 1-2 source references over {s1,s2,missing}, source placement (file/db/clash) are case-split; batch size, start, stop, chain id are solver variables; an integration does not list the same source twice; names are distinct within the file and within the table",
 		},
